@@ -8,7 +8,7 @@ calcAM: recovery-matrix form: AM_j times the boundary accelerance T (-W^2)(Z_j^-
 C02 contract); partition-vector form: column `direc` of AM is the boundary force cbtf needs to enforce a unit boundary
 acceleration in that direction, in the caller's boundary order; cbtf's solution satisfies the full equations of motion.
 """
-import ast, hashlib, json, os, sys, time, traceback
+import warnings, ast, hashlib, json, os, sys, time, traceback
 from types import SimpleNamespace
 import numpy as np
 import sympy as sp
@@ -269,13 +269,16 @@ def calcam_pv_case(args):
 
 
 def _calcam_drm_case(args, t0):
-    nb, = args
+    nb = args[0]
+    selection = len(args) > 1 and args[1] == "one entry per row"      # a recovery matrix that picks one DOF per row with a factor (sign flip / scale), not necessarily +1
     fr = alg.load_module(report.REPO, FR)
     n = 3
     m = sp.Matrix(n, n, lambda i, j: sp.Symbol("m%d%d" % (min(i, j), max(i, j)), real=True))
     b = sp.Matrix(n, n, lambda i, j: sp.Symbol("b%d%d" % (i, j), real=True))
     k = sp.Matrix(n, n, lambda i, j: sp.Symbol("k%d%d" % (min(i, j), max(i, j)), real=True))
     T = sp.Matrix(nb, n, lambda i, j: sp.Symbol("t%d%d" % (i, j), real=True))
+    if selection:
+        T = sp.Matrix(nb, n, lambda i, j: sp.Symbol("t%d%d" % (i, j), real=True) if j == (2 * i) % n else 0)
     f0, f1 = sp.symbols("f0 f1", positive=True)
     freqs = [f0, f1]
     # the acceleration response operator G_j = -W_j^2 Z_j^-1 of the system at frequency j: abstract (any matrix), non-symmetric
@@ -293,7 +296,7 @@ def _calcam_drm_case(args, t0):
     with alg.Shimmed(fr, reg, {"np": NPC(), "la": symla}):
         AM = fr.calcAM([symla.toarr(m), symla.toarr(b), symla.toarr(k), symla.toarr(T)], alg.sym_array(freqs), fs=FS())
     res = []
-    tag = "calcAM[recovery matrix %dx%d]" % (nb, n)
+    tag = "calcAM[recovery matrix %dx%d%s]" % (nb, n, ", one entry per row" if selection else "")
     bad = []
     for j, f in enumerate(freqs):
         H = T * G[j] * T.T                       # boundary accelerance: acceleration at the recovered DOF per unit force applied through T^T
@@ -319,6 +322,24 @@ def float_coupled(seed, n_it):
     from pyyeti import frclim, ode
     rng = np.random.RandomState(seed)
     ev = 0
+    # a model that is boundary only (every DOF is a boundary DOF, no modal DOF), with damping: the apparent mass is the dynamic stiffness over -W^2,
+    #   AM(W) = M - i B / W - K / W^2   (force per unit enforced acceleration), for the partition-vector form in any boundary order
+    for nbo in (1, 3):
+        A_ = rng.randn(nbo, nbo); Mb = A_ @ A_.T + nbo * np.eye(nbo)
+        A_ = rng.randn(nbo, nbo); Bb = 0.3 * (A_ @ A_.T) + 0.1 * np.eye(nbo)
+        A_ = rng.randn(nbo, nbo); Kb = 40 * (A_ @ A_.T) + 5 * np.eye(nbo)
+        fqb = np.array([0.7, 2.0, 9.0])
+        for bd_ in (list(range(nbo)), list(range(nbo))[::-1]):
+            with warnings.catch_warnings():
+                warnings.simplefilter("ignore")
+                AMb = frclim.calcAM([Mb, Bb, Kb, np.array(bd_)], fqb)
+            ev += 1
+            Wb = 2 * np.pi * fqb
+            ixb = np.ix_(bd_, bd_)
+            want_b = np.stack([Mb[ixb] - 1j * Bb[ixb] / w_ - Kb[ixb] / w_ ** 2 for w_ in Wb], axis=1)
+            if AMb.shape != want_b.shape or not np.allclose(AMb, want_b, rtol=1e-9, atol=1e-12):
+                return ev, dict(what="calcAM of a boundary-only model (no modal DOF) with damping differs from M - i B/W - K/W^2", boundary_dof=bd_,
+                                max_difference=float(abs(AMb - want_b).max()) if AMb.shape == want_b.shape else None)
     for it in range(n_it):
         ns, nl, nb = 5, 4, 2
 
@@ -417,7 +438,7 @@ def run(tier, seed):
     P = report.pool()
     jobs = [(ntfl_case, (2, 2, True)), (ntfl_case, (2, 1, False)), (ntfl_case, (1, 3, True)),
             (cbtf_case, ((3, 0), False)), (cbtf_case, ((0, 1), True)), (cbtf_case, ((2, 1), True)),
-            (calcam_pv_case, ((3, 0),)), (calcam_pv_case, ((0, 2),)), (calcam_drm_case, (2,)), (calcam_drm_case, (1,))]
+            (calcam_pv_case, ((3, 0),)), (calcam_pv_case, ((0, 2),)), (calcam_drm_case, (2,)), (calcam_drm_case, (1,)), (calcam_drm_case, (2, "one entry per row"))]
     rs = [P.apply_async(f, (a,)) for f, a in jobs]
     for (f, a), r in zip(jobs, rs):
         for d in r.get():
